@@ -48,6 +48,27 @@ def gen_plotmodes():
     if rest != want:
         bad = next((i for i, (a, b) in enumerate(zip(rest, want)) if a != b), min(len(rest), len(want)))
         raise T.TieBroken(f"plot_modes: statement {bad + 2} changed: {(rest[bad] if bad < len(rest) else '<missing>')[:120]}")
+    # --- the command `cij modes` (cij/cli/modes.py): option -> parameter, and the call that hands them to plot_modes
+    cpath = os.path.join(T.REPO, "cij/cli/modes.py")
+    ctree = ast.parse(open(cpath, encoding="utf8").read())
+    cmain = next((f for f in ctree.body if isinstance(f, ast.FunctionDef) and f.name == "main"), None)
+    if cmain is None: raise T.TieBroken("cij/cli/modes.py: main not found")
+    opts = []
+    for dec in cmain.decorator_list:
+        if isinstance(dec, ast.Call) and ast.unparse(dec.func) == "click.option":
+            names = [a.value for a in dec.args if isinstance(a, ast.Constant) and isinstance(a.value, str)]
+            longs = [x for x in names if x.startswith("--")]
+            param = (longs[0][2:] if longs else names[0].lstrip("-")).replace("-", "_")
+            kw = {k.arg: ast.unparse(k.value) for k in dec.keywords}
+            opts.append((param, ",".join(names), kw.get("type", ""), kw.get("default", "")))
+    calls = [n for n in ast.walk(cmain) if isinstance(n, ast.Call) and ast.unparse(n.func).endswith(".plot_modes")]
+    if len(calls) != 1: raise T.TieBroken(f"cij/cli/modes.py: {len(calls)} calls of plot_modes")
+    if calls[0].keywords: call_args = [ast.unparse(a) for a in calls[0].args] + [f"{k.arg}={ast.unparse(k.value)}" for k in calls[0].keywords]
+    else: call_args = [ast.unparse(a) for a in calls[0].args]
+    recv = ast.unparse(calls[0].func)[:-len(".plot_modes")]
+    made = [st for st in ast.walk(cmain) if isinstance(st, ast.Assign) and ast.unparse(st.targets[0]) == recv]
+    if len(made) != 1 or " ".join(ast.unparse(made[0].value).split()) != "ModePlotter(calculator)":
+        raise T.TieBroken("cij/cli/modes.py: the plotter is not ModePlotter(calculator)")
     def row(k, attr, idx):
         return f'({k}, "{attr}", {"none" if idx is None else "some " + idx})'
     txt = ("-- GENERATED by tools/gens/plotmodes_src.py from cij/plot/modes.py — do not edit\nnamespace Generated.PlotModes\n\n"
@@ -56,8 +77,14 @@ def gen_plotmodes():
            f"/-- defaults of `n` and `iq` -/\ndef defaults : List Int := {defaults}\n\n"
            "/-- curve loop: every mode k of `range(calculator.np)` except `iq == 0 and k < 3` is drawn as `w_arrays[:, k]` against `self.v_array`;\n"
            "for n ≠ 0 the method returns before the scatter of the input frequencies (compared on the normalised AST) -/\n"
-           "def gammaSkip : Nat := 3\ndef loopsCanonical : Bool := true\n\nend Generated.PlotModes\n")
-    return {"PlotModesSpec.lean": txt}, [path]
+           "def gammaSkip : Nat := 3\ndef loopsCanonical : Bool := true\n\n"
+           "/-- parameters of `plot_modes` after `self` -/\n"
+           "def plotParams : List String := [" + ", ".join(T.lean_str(x) for x in params[1:]) + "]\n\n"
+           "/-- `cij modes` (cij/cli/modes.py): click options as (parameter, declarations, type, default) and the arguments of its one\n"
+           "`ModePlotter(calculator).plot_modes(…)` call, in order -/\n"
+           "def cliOptions : List (String × String × String × String) := [" + ", ".join("(" + ", ".join(T.lean_str(x) for x in o) + ")" for o in opts) + "]\n"
+           "def cliCallArgs : List String := [" + ", ".join(T.lean_str(x) for x in call_args) + "]\n\nend Generated.PlotModes\n")
+    return {"PlotModesSpec.lean": txt}, [path, cpath]
 
 
 GENERATORS = {"gen_plotmodes": (gen_plotmodes, ["PlotModesSpec.lean"])}
